@@ -350,6 +350,20 @@ class Check(object):
         return 0
 
 
+def phase_tasks(scen, params, pairs, ns, ms, gran="line", facts=None, prefix=()):
+    """Directed schedules with two preemptions: for every ordered pair (a, b) of thread names and every (n, m):
+    a runs n steps, b runs m steps, a runs to its end, then b (strategies.Phases).  Sweeping n and m places b's
+    operation at every point of a's operation, deterministically."""
+    out = []
+    for a, b in pairs:
+        for n in ns:
+            for m in ms:
+                out.append({"scen": scen, "params": params,
+                            "strat": ["phases", [list(x) for x in prefix] + [[a, n], [b, m], [a, 10000]]],
+                            "gran": gran, "facts": dict(facts or {}, directed=True)})
+    return out
+
+
 POLLED = ("Observed", "DelegateState")
 
 
